@@ -190,6 +190,12 @@ def run_unit(unit, tier="quick", seed=0, repo=None, timeout_s=None, extra_args=(
             continue
         if not f["success"]:
             msgs = per_fn.get(short, [])
+            if not msgs:
+                # attribution by line failed (e.g. braces inside a spec clause): fall back to every verification-failure
+                # message that is not attributed to a function reported as successful
+                ok_names = {g["function"].split("::")[-1] for g in funcs if g["success"]}
+                msgs = [b for nm, bs in per_fn.items() if nm in ok_names or nm not in {g["function"].split("::")[-1] for g in funcs} for b in bs
+                        if any(v in b for v in VERIFICATION_FAILURES)] + [b for b in unattributed if any(v in b for v in VERIFICATION_FAILURES)]
             txt = "\n".join(msgs)
             if any(t.lower() in txt.lower() for t in TOOL_TROUBLE) or not msgs:
                 tool.append((f["function"], txt or "no message attributed"))
